@@ -118,17 +118,58 @@ def _(c):
     c.normal(when=Not(has), result=NONE_V, label="absent")
 
 
-@contract("singleton.get_all_semi_singleton_instances", "cls:cls", props=("C17",), trusted=True, no_body=True, is_generator=True)
+def SELV(S, M, cref):
+    """SELV(q): the instances stored under the keys of q whose class component is `cref`, in the order of q (snoc recursion)"""
+    from .plantuml import _key
+    return z3.Function(f"semi_instances@{_key(S, 'smap_has', 'smap_val')}", Ref, Ref, T.RSeq, T.RSeq)
+
+
+def selv_defs(S, M, cref, q):
+    F = SELV(S, M, cref)
+    out = [F(M, cref, T.EMPTY()) == T.EMPTY()]
+    parts = T._flat(q)
+    if parts and T._is_unit(parts[-1]) and not T._is_empty(q):
+        head, k = T.cat(*parts[:-1]), parts[-1].arg(0)
+        out.append(F(M, cref, q) == T.ite(T.pfst(k) == cref, T.snoc(F(M, cref, head), S.read("smap_val", M, k)), F(M, cref, head)))
+    return out
+
+
+@contract("singleton.get_all_semi_singleton_instances", "cls:cls", props=("C17",), is_generator=True, oracle_op=True)
 def _(c):
-    # TRUSTED (dict iteration with tuple keys is outside the symbolic subset): bounded stand-in only
+    """yields exactly the instances stored under the live keys of this class (each live key once, in the registry's iteration
+    order, which is unspecified: ghost enumeration p), nothing of another class of the same metaclass, and creates nothing"""
+    S, k = c.S, c.cls
+    M = T.meta_of(k)
+    p = c.enum_where(lambda x: S.read("smap_has", M, x), "live_keys")
     o = c.normal()
-    o.out(T.fresh("instances", T.RSeq))
+    o.out(SELV(S, M, T.cls_ref(k))(M, T.cls_ref(k), p))
 
 
-@contract("singleton.clear_semi_singleton", "cls:cls", props=("C17",), trusted=True, no_body=True)
+@REG.loop("singleton.get_all_semi_singleton_instances", 0)
+def _(L):
+    S = L.pre
+    k = L.args["cls"].term
+    M, cref = T.meta_of(k), T.cls_ref(k)
+    return LoopInv(out=SELV(S, M, cref)(M, cref, L.prefix), ground_defs=selv_defs(S, M, cref, L.prefix))
+
+
+@contract("singleton.clear_semi_singleton", "cls:cls", props=("C17",), oracle_op=True)
 def _(c):
-    # TRUSTED: removes exactly the mappings of `cls` from its metaclass's registry
+    """removes exactly the mappings of `cls` from its metaclass's registry: other classes sharing the metaclass keep theirs"""
     S, k = c.S, c.cls
     M = T.meta_of(k)
     o = c.normal()
     o.set_where("smap_has", lambda a: (And(a[0] == M, T.pfst(a[1]) == T.cls_ref(k)), BoolVal(False)))
+    o.loose("elems", lambda new, old, *_: [])
+
+
+@REG.loop("singleton.clear_semi_singleton", 0)
+def _(L):
+    S = L.st
+    k = L.args["cls"].term
+    M = T.meta_of(k)
+    q = L.prefix
+
+    def c_has(new, old, *_):
+        return [Schema("deleted-so-far", (Ref, Ref), lambda m, x: new(m, x) == And(S.read("smap_has", m, x), Not(And(m == M, T.Cnt(q, x) >= 1))), trigger=("smap_has",))]
+    return LoopInv(loose=[Loose("smap_has", c_has)])
